@@ -353,7 +353,63 @@ def r3_overlay_read_before_write(ctx):
                    'for an inline directive the overlay is empty at this read (it was just cleared): KeyError(%s) -- an inline +REQUIRES(unmet) fails the doctest instead of '
                    'skipping one statement, an inline -REQUIRES(x) is silently ignored' % key_text,
                    witness=None if wit is None else graph.fmt_path(wit, f.module.relpath), anchor=UPD)
-    rep.floor('C04.R3', 'subscript loads on a possible overlay alias', n_sites, 1)
+    # R3c: a set action on the overlay starts from the persistent set.  Reads of the previous value through
+    # <alias>.get(key, D) / .setdefault(key, D) need a default that reads self._global_state[key]; a store that seeds
+    # the overlay entry (the one guarded by `key not in <alias>`) must take its value from there as well.
+    glob = recv + '.' + GLOBAL
+
+    def reads_global(e, key_text):
+        for x in ast.walk(e):
+            if isinstance(x, ast.Subscript) and isinstance(x.ctx, ast.Load) and field_name(x.value, recv) == glob and ast.unparse(x.slice) == key_text:
+                return True
+            if isinstance(x, ast.Call) and isinstance(x.func, ast.Attribute) and x.func.attr == 'get' and field_name(x.func.value, recv) == glob and x.args and ast.unparse(x.args[0]) == key_text:
+                return True
+        return False
+
+    def may_alias_overlay(n, name):
+        for d in rd.at(n, name):
+            if isinstance(d.value, ast.AST) and field_name(d.value, recv) == recv + '.' + INLINE:
+                if graph.path([g.entry], lambda x, dn=d.node: x is dn, efilter=ef) is not None:
+                    return True
+        return False
+    dom = ctx.dom(g, g.entry)
+    n_get = 0
+    for n in reach:
+        if n.kind not in ('stmt', 'test') or n.dup:
+            continue
+        facts = graph.guard_facts(dom, n)
+        in_set_action = any(fa.polarity is True and isinstance(fa.expr, ast.Compare) and is_name(fa.expr.left, 'action') and isinstance(fa.expr.comparators[0], ast.Constant) and
+                            str(fa.expr.comparators[0].value).startswith('set.') for fa in facts)
+        if not in_set_action:
+            continue
+        for c in ast.walk(n.ast):
+            if isinstance(c, ast.Call) and isinstance(c.func, ast.Attribute) and c.func.attr in ('get', 'setdefault', 'pop') and isinstance(c.func.value, ast.Name) and c.args and may_alias_overlay(n, c.func.value.id):
+                n_get += 1
+                key_text = ast.unparse(c.args[0])
+                dflt = c.args[1] if len(c.args) > 1 else None
+                ok = dflt is not None and reads_global(dflt, key_text)
+                rep.ob('C04.R3c', ctx.loc(f, c), ctx.src(c), ok,
+                       'an empty overlay falls back to the persistent set' if ok else
+                       'for an inline directive the overlay is empty here, and the fallback `%s` is not the persistent set: the requirements that are pending from block directives '
+                       'are dropped for this statement' % (ctx.src(dflt) if dflt is not None else 'None'), anchor=UPD)
+        if isinstance(n.ast, ast.Assign):
+            for t in n.ast.targets:
+                if isinstance(t, ast.Subscript) and isinstance(t.value, ast.Name) and may_alias_overlay(n, t.value.id):
+                    key_text = ast.unparse(t.slice)
+                    seeding = any(fa.polarity is False and isinstance(fa.expr, ast.Compare) and isinstance(fa.expr.ops[0], ast.In) and ast.unparse(fa.expr.left) == key_text and
+                                  is_name(fa.expr.comparators[0], t.value.id) for fa in facts)
+                    if seeding:
+                        ok = reads_global(n.ast.value, key_text)
+                        rep.ob('C04.R3c', ctx.loc(f, n.ast), ctx.src(n.ast), ok,
+                               'the overlay entry is seeded with (a copy of) the persistent set' if ok else
+                               'the overlay entry of a set-valued key is seeded with something else than the persistent set', anchor=UPD)
+                        aliasing = isinstance(n.ast.value, ast.Subscript) and field_name(n.ast.value.value, recv) == glob
+                        if aliasing:
+                            rep.ob('C04.R3c', ctx.loc(f, n.ast), 'copy, not alias: ' + ctx.src(n.ast), False,
+                                   'the overlay entry aliases the persistent set object: the in-place add/remove that follows changes the persistent state', anchor=UPD)
+    rep.ob('C04.R3', ctx.loc(f, f.node), 'set actions read the previous set', n_sites + n_get >= 1,
+           '%d subscript load(s), %d get-style read(s) on a possible overlay alias' % (n_sites, n_get) if n_sites + n_get else
+           'no set action reads the value it is supposed to extend', nontrivial=False, anchor=UPD)
 
 
 # ---------------------------------------------------------------------------
